@@ -370,3 +370,121 @@ def _noop(ex, args, kwargs, node, st):
 
 for _n in ('printf', 'fflush', 'signal', 'fprintf'):
     LIB['c.' + _n] = _noop
+
+
+# ------------------------------------------------------------------ level R: NumPy on real scalars / small arrays
+def _real(v):
+    from .vals import is_real, is_int
+    if is_real(v):
+        return v
+    if is_int(v):
+        return z3.ToReal(zint(v))
+    if isinstance(v, float):
+        return z3.RealVal(repr(v))
+    return None
+
+
+def _map_real(ex, st, v, f):
+    items = ex.elementwise_items(v, st)
+    if items is not None:
+        return ex.new_ndarray(st, [f(_real(x)) for x in items])
+    r = _real(v)
+    if r is None:
+        return None
+    return f(r)
+
+
+def _real_fn(name, fun, fallback=None):
+    def h(ex, args, kwargs, node, st):
+        out = _map_real(ex, st, args[0], fun(ex, st, node))
+        if out is None:
+            if fallback is not None:
+                return fallback(ex, args, kwargs, node, st)
+            raise Unsupported('%s of %r' % (name, type(args[0])))
+        return out
+    return h
+
+
+def _rexp(ex, st, node):
+    from specs.reals import rexp
+    return lambda x: rexp(x)
+
+
+def _rlog(ex, st, node):
+    from specs.reals import rlog
+
+    def f(x):
+        ex.oblige('domain', x > 0, st, node, 'log of a positive number')
+        return rlog(x)
+    return f
+
+
+def _rsqrt(ex, st, node):
+    from specs.reals import rsqrt
+
+    def f(x):
+        ex.oblige('domain', x >= 0, st, node, 'sqrt of a non-negative number')
+        return rsqrt(x)
+    return f
+
+
+_old_exp = LIB['np.exp']
+LIB['np.exp'] = _real_fn('np.exp', _rexp, _old_exp)
+LIB['np.log'] = _real_fn('np.log', _rlog)
+_old_sqrt = LIB['np.sqrt']
+LIB['np.sqrt'] = _real_fn('np.sqrt', _rsqrt, _old_sqrt)
+LIB['np.abs'] = _real_fn('np.abs', lambda ex, st, node: (lambda x: z3.If(x < 0, -x, x)))
+LIB['np.sign'] = _real_fn('np.sign', lambda ex, st, node: (lambda x: z3.If(x < 0, z3.RealVal(-1), z3.If(x > 0, z3.RealVal(1), z3.RealVal(0)))))
+
+
+@lib('np.power')
+def np_power(ex, args, kwargs, node, st):
+    """np.power(X, 2) elementwise; np.power(base, X) with a scalar base (A3)"""
+    from specs.reals import rpow
+    a, b = args
+    if is_cint(b) and b == 2:
+        return _map_real(ex, st, a, lambda x: x * x)
+    ra = _real(a)
+    if ra is not None:
+        return _map_real(ex, st, b, lambda x: rpow(ra, x))
+    raise Unsupported('np.power form')
+
+
+def _summary(name, rel):
+    """np.max / np.min / np.mean / np.quantile of an array of which the executor sees a few elements:
+    a real symbol (one per array and statistic) constrained only by what holds for *every* array
+    containing those elements; `nonneg` arrays (distances) have non-negative statistics."""
+    def h(ex, args, kwargs, node, st):
+        v = args[0]
+        items = ex.elementwise_items(v, st)
+        if items is None:
+            raise Unsupported('%s of %r' % (name, type(v)))
+        o = st.heap[v.oid]
+        sym = z3.Real('%s_%s' % (name, o.name or v.oid))
+        done = st.vars.setdefault('__summaries__', set())
+        if sym.decl().name() not in done:
+            done.add(sym.decl().name())
+            for x in items:
+                c = rel(sym, _real(x))
+                if c is not None:
+                    st.assume(c)
+            if getattr(o, 'nonneg', False):
+                st.assume(sym >= 0)
+        return sym
+    return h
+
+
+LIB['np.max'] = _summary('npmax', lambda m, x: m >= x)
+LIB['np.min'] = _summary('npmin', lambda m, x: m <= x)
+LIB['np.mean'] = _summary('npmean', lambda m, x: None)
+
+
+def _np_quantile(ex, args, kwargs, node, st):
+    q = _summary('npquantile', lambda m, x: None)(ex, args, kwargs, node, st)
+    mx = LIB['np.max'](ex, args, kwargs, node, st)
+    mn = LIB['np.min'](ex, args, kwargs, node, st)
+    st.assume(z3.And(mn <= q, q <= mx))
+    return q
+
+
+LIB['np.quantile'] = _np_quantile
